@@ -313,7 +313,7 @@ func runW(c WCase, ev *pbt.Ev) error {
 }
 
 func TestProp_Wire(t *testing.T) {
-	pbt.Run(t, pbt.Options{Prop: "C18", Name: "Wire", Quick: 5000, Thorough: 200000, Timeout: 120 * time.Second,
+	pbt.Run(t, pbt.Options{Prop: "C18", Name: "Wire", Quick: 5000, Thorough: 150000, Timeout: 120 * time.Second,
 		Rule: "rapid: registry hosts built by service/resolver.RegistryHostsFromConfig (mirror with configured headers incl. a list-valued one, origin without; docker authorizer with per-host credentials or none; retryable client) with only the network transport replaced by the in-memory registry; each of mirror/origin behaves {direct, redirects to a third host, unavailable} x {no challenge, 401 Basic, 401 Bearer with a token service on a fourth host} and the redirect target optionally answers 403 on its n-th fetch (URL expired -> refresh); " +
 			"1-10 ops of ReadAt/Cache/Check/Refresh, optionally 2-4 concurrent readers; oracle = universal negative over the complete request log: a configured header value only in requests to its host; Basic credentials of host H only to H or to the token service for service=H; bearer token tok-H only to H; no Authorization and no configured header in any request to the redirect target. " +
 			"non-trivial = the history contains a redirect and a 403 refresh",
